@@ -36,11 +36,11 @@ Section Mont.
   Lemma mg_redc_eq c : 0 <= c -> c + (B - 1) * p < 4294967296 -> mg_redc p c = redc_z B p (mg_nim p) c.
   Proof.
     intros Hc Hb. pose proof (proj2 Hnim) as Hn2. unfold mg_redc, redc_z, redc_t, mfac, B16. cbv zeta.
-    rewrite land_B by lia.
+    rewrite (land_B c) by lia.
     assert (0 <= c mod B < B) as Hcm by (apply Z.mod_pos_bound; reflexivity).
     assert (wrapu 32 (c mod B * mg_nim p) = c mod B * mg_nim p) as ->.
     { apply wrapu_id; [lia|]. change (2 ^ 32) with 4294967296. nia. }
-    rewrite land_B by (nia).
+    rewrite (land_B (c mod B * mg_nim p)) by nia.
     assert (0 <= (c mod B * mg_nim p) mod B < B) as Hm by (apply Z.mod_pos_bound; reflexivity).
     rewrite (wrapu_id 32 (_ * p)) by (try lia; change (2 ^ 32) with 4294967296; nia).
     rewrite wrapu_id by (try lia; change (2 ^ 32) with 4294967296; nia).
